@@ -217,3 +217,23 @@ def address_alphabet(limit=160):
     for c1, c2 in zip(lit, lit[1:]):
         a.append((c1 + c2) // 2)
     return list(dict.fromkeys(a))[:limit]
+
+
+def interleaved_ok(f, arg_tuples, fb_list=()):
+    """engine.interleave over all ordered pairs of the given argument tuples (and, as the interrupting call, each (fb, args)
+    of fb_list): returns a list of (args_a, name_b, k) for schedules in which either call's answer differs from the answer
+    it gives alone; plus the number of schedules executed."""
+    from engine import interleave, loader
+    iso = [repr(call(f, *a)) for a in arg_tuples]
+    bad, n = [], 0
+    for i, a in enumerate(arg_tuples):
+        inter = [(f, b, iso[j], getattr(f, "__name__", "f")) for j, b in enumerate(arg_tuples) if j != i]
+        inter += [(fb, b, repr(call(fb, *b)), getattr(fb, "__name__", "g")) for fb, b in fb_list]
+        for fb, b, iso_b, nm in inter:
+            res = interleave.explore(f, a, fb, b, loader.SRC)
+            n += len(res["schedules"])
+            for k, ra, rb in res["schedules"]:
+                if repr(ra) != iso[i] or repr(rb) != iso_b:
+                    bad.append((a, nm, k))
+                    break
+    return bad, n
